@@ -21,6 +21,14 @@ def norm_cell(c):
     if isinstance(c, str) and len(c) >= 2 and c[1] == ":":
         if c[0] == "s":
             return c[2:]
+        if c[0] == "d":
+            # decimals are compared by value, not by scale (1.5 == 1.500)
+            from decimal import Decimal
+            try:
+                d = Decimal(c[2:]).normalize()
+                return "d:" + format(d, "f")
+            except Exception:
+                return c
         return c
     return c
 
